@@ -20,7 +20,8 @@ EXTENDS Elem, Geo, TLC
 
 CONSTANTS MaxN,      \* design model: number of points 2..MaxN
           Coords,    \* design model: coordinate values
-          Dim        \* design model: dimension of the points
+          Dim,       \* design model: dimension of the points
+          NMeth      \* design model: how many of the listed kernel methods (1..5)
 
 VARIABLES pts, kk, meth
 
@@ -96,7 +97,7 @@ ValsKernel(P, pd, m, ft, pat, val) ==
   \A i, j \in 1..Len(P) :
      IF pat[i][j] = 1
        THEN LET ex == KRat(m, pd, P[i], P[j]) IN
-            val[i][j] \in Int /\ Abs(val[i][j] * ex[2] - ex[1]) <= ValSlack(m, ft, ex[1] \div ex[2]) * ex[2]
+            Abs(val[i][j] * ex[2] - ex[1]) <= ValSlack(m, ft, ex[1] \div ex[2]) * ex[2]
        ELSE val[i][j] = 0
 ValsSym(P, val) == \A i, j \in 1..Len(P) : val[i][j] = val[j][i]
 GaussUnitDiag(P, m, val) == m.name = "gauss" => \A i \in 1..Len(P) : val[i][i] = KS
@@ -135,7 +136,7 @@ ViewDiag(n, M, o) == o.diag = [i \in 1..n |-> M[i][i]]
 ViewUT(n, M, o)   == o.ut = UpperTri(M)
 ViewSum(n, M, ft, o) ==
   /\ Len(o.sum) = n
-  /\ \A i \in 1..n : o.sum[i] \in Int /\ CloseI(o.sum[i], SumSeq(M[i]), SumSlack(n, ft, RowAbs(M, i)))
+  /\ \A i \in 1..n : CloseI(o.sum[i], SumSeq(M[i]), SumSlack(n, ft, RowAbs(M, i)))
 ViewDot(n, M, ft, rhs, o) ==
   LET w == IF Len(rhs) = 0 THEN 0 ELSE Len(rhs[1]) IN
   /\ o.dotshape = <<n, w>>
@@ -145,7 +146,7 @@ ViewDot(n, M, ft, rhs, o) ==
                           LET ex  == SumSeq([j \in 1..n |-> M[i][j] * rhs[j][cc]])
                               mag == SumSeq([j \in 1..n |-> Abs(M[i][j] * rhs[j][cc])])
                               q   == SumSeq([j \in 1..n |-> Abs(rhs[j][cc])])
-                          IN o.dot[i][cc] \in Int /\ CloseI(o.dot[i][cc], ex, (q \div 2) + 1 + (IF ft = "f32" THEN 2 + mag \div 500000 ELSE 0))
+                          IN CloseI(o.dot[i][cc], ex, (q \div 2) + 1 + (IF ft = "f32" THEN 2 + mag \div 500000 ELSE 0))
 
 ViewsOK(n, M, ft, rhs, o) ==
   /\ ViewSize(n, o) /\ ViewCols(n, M, o) /\ ViewDiag(n, M, o) /\ ViewUT(n, M, o)
@@ -165,11 +166,12 @@ RECURSIVE SortedSeqs(_, _)
 SortedSeqs(S, n) == IF n = 0 THEN {<<>>}
                     ELSE UNION {{Append(s, x) : x \in {y \in S : n = 1 \/ PKey(s[n - 1]) <= PKey(y)}} : s \in SortedSeqs(S, n - 1)}
 
-Methods == { [name |-> "linear", en |-> 1, ed |-> 1, c |-> 0, d |-> 1],
-             [name |-> "poly",   en |-> 1, ed |-> 1, c |-> 1, d |-> 2],
-             [name |-> "gauss",  en |-> 1, ed |-> 2, c |-> 0, d |-> 0],
-             [name |-> "gauss",  en |-> 2, ed |-> 1, c |-> 0, d |-> 0],
-             [name |-> "gauss",  en |-> 5, ed |-> 1, c |-> 0, d |-> 0] }
+MethodSeq == << [name |-> "linear", en |-> 1, ed |-> 1, c |-> 0, d |-> 1],
+                [name |-> "gauss",  en |-> 1, ed |-> 2, c |-> 0, d |-> 0],
+                [name |-> "gauss",  en |-> 2, ed |-> 1, c |-> 0, d |-> 0],
+                [name |-> "poly",   en |-> 1, ed |-> 1, c |-> 1, d |-> 2],
+                [name |-> "gauss",  en |-> 5, ed |-> 1, c |-> 0, d |-> 0] >>
+Methods == {MethodSeq[q] : q \in 1..NMeth}
 
 \* Init fixes the first point and the method; one Next step completes the point set and picks k
 \* (so that TLC's workers share the enumeration).  All invariants are about completed states.
